@@ -16,7 +16,7 @@ class C12(GProp):
     files = ['tephra-error/src/recover.rs', 'tephra/src/lexer.rs', 'tephra-combinator/src/control.rs']
     rule = ('seeded random texts over items, the recovery tokens (first, last, repeated, absent), whitespace and a rejected char x '
             'recover / recover_default / delayed variants x recover_before / recover_after / _any x the same parser object invoked '
-            '1..4 times in sequence (runs) and inside repeat, and two different recovering parsers in sequence without a stabilize x sink on/off; per invocation: ok/err, placeholder value, the remaining '
+            '1..4 times in sequence (runs) and inside repeat, a stabilize that succeeds only after resuming a recover_after recovery (followed by further stabilizing / recovering parsers), and two different recovering parsers in sequence without a stabilize x sink on/off; per invocation: ok/err, placeholder value, the remaining '
             'token stream (next token = recovery point) and the number of errors reported are compared with a python reference '
             '(first recovery token at or after the start of the failed parser); non-trivial = a run in which the wrapped parser '
             'failed with a sink installed; distinct by case')
@@ -33,7 +33,7 @@ class C12(GProp):
             a = r.choice([['one', 'A'], ['seq', 'A', 'A'], ['both', ['one', 'A'], ['one', 'B']], ['any', 'A', 'B']])
             g = [comb, rs, a]
             runs = 1
-            k = r.below(7)
+            k = r.below(8)
             if k == 0: g = ['both', g, ['maybe', ['one', rs[1]]]]
             elif k == 1: g = ['repeat', 0, 'inf', ['both', g, ['one', rs[1] if len(rs) == 2 else 'Semi']]]
             elif k in (2, 3): runs = 2 + r.below(3)
@@ -47,7 +47,22 @@ class C12(GProp):
                 a2 = r.choice([['one', 'A'], ['seq', 'A', 'A'], ['any', 'A', 'B']])
                 sep1 = ['maybe', ['any', 'Semi', 'Comma']]
                 g = ['both', ['left', g, sep1], [r.choice(RCOMB), rs2, a2]]
-            t = spangen.random_text(r, alpha, 12 if tier == 'quick' else 24)
+            text = None
+            if k == 7:
+                # a stabilising parse that succeeds only after stabilize RESUMED the recovery (attempt >= 1): the recovery resumes
+                # at a token the stabilised parser rejects, a further recovery token follows and the parser succeeds behind it;
+                # the lexer it returns is stable (rec flag of the model comparison) and a later stabilize has nothing to resume
+                rs = r.choice([['after', 'Semi'], ['after', 'Semi'], ['afterany', 'Semi', 'Comma']])
+                first = [r.choice(['recover', 'recoverdef']), rs, ['one', 'A']]
+                st = ['stabilize', r.choice([['one', 'B'], ['seq', 'B', 'B'], ['both', ['one', 'B'], ['maybe', ['one', 'A']]]])]
+                tail = r.choice([st, ['both', st, ['stabilize', ['one', 'A']]], ['both', st, ['maybe', ['stabilize', ['one', 'A']]]],
+                                 ['both', st, [r.choice(RCOMB), gen_rs(r), ['one', 'A']]]])
+                g = ['both', first, tail]
+                junk = lambda: [r.choice(['c', 'a', 'c', 'sp'])] * r.below(3)
+                text = (['c'] + junk() + ['semi'] + [r.choice(['c', 'a'])] + junk() + ['semi'] +
+                        ([r.choice(['c', 'a']), 'semi'] if r.chance(1, 3) else []) + ['b'] +
+                        spangen.random_text(r, ['a', 'b', 'c', 'semi', 'sp'], 5))
+            t = text or spangen.random_text(r, alpha, 12 if tier == 'quick' else 24)
             n += 1
             out.append(parsegen.parse_case('c%d' % n, t, g, sink=(0 if r.chance(1, 5) else 1), runs=runs))
         return out
